@@ -74,6 +74,15 @@ def parseSchema : Nat → List Char → Option (Schema × List Char)
       else if c.isDigit then some (.long, r) else none
     -- uuid (string of 36 hex/hyphen characters) and duration (fixed 12) are checked by the harness only
     | 'U' :: r => some (.string, r)
+    -- other Arrow layouts of the same Avro type on the writer side: LargeUtf8 / Utf8View, LargeBinary /
+    -- BinaryView, LargeList / ListView / FixedSizeList(n)
+    | 'S' :: r => some (.string, r)
+    | 'V' :: r => some (.string, r)
+    | 'Y' :: r => some (.bytes, r)
+    | 'W' :: r => some (.bytes, r)
+    | 'A' :: r => (parseSchema fuel r).map (fun p => (.array p.1, p.2))
+    | 'L' :: r => (parseSchema fuel r).map (fun p => (.array p.1, p.2))
+    | 'F' :: r => let (_, r') := takeDigits r; (parseSchema fuel r').map (fun p => (.array p.1, p.2))
     | 'I' :: r => some (.fixed 12, r)
     | 'e' :: r => let (d, r') := takeDigits r; (String.ofList d).toNat?.map (fun n => (.enum n, r'))
     | '?' :: r => (parseSchema fuel r).map (fun p => (.nullable true p.1, p.2))
@@ -224,7 +233,7 @@ def unmodelled (sch : String) : Bool := sch.toList.any (fun c => c = 'U' || c = 
 def handleAvro (toks : List String) : Option String :=
   if (match toks with
       | [op, sch, _] => (op = "avro" || op = "ocf") && unmodelled sch
-      | [op, _, sch, _] => (op = "soe" || op = "ocfz") && unmodelled sch
+      | [op, _, sch, _] => (op = "soe" || op = "ocfz" || op = "conf") && unmodelled sch
       | _ => false) then some "SKIP" else
   match toks with
   | ["avro", sch, rows] =>
@@ -241,6 +250,16 @@ def handleAvro (toks : List String) : Option String :=
           -- every frame must parse back to (fingerprint, body)
           if frames.all (fun fr => match soeParse fr with | some (f, _) => f == leValue fpb | none => false)
           then toHex frames.flatten else "MODEL-SPEC-MISMATCH soe"
+        | .error e => e)
+    | _, _, _ => some "bad-op"
+  | ["conf", id, sch, rows] =>
+    -- Confluent wire format: `Fingerprint::Id(id).make_prefix()` = CONFLUENT_MAGIC ++ id.to_be_bytes()
+    match id.toNat?, (schemaOf sch).bind fieldsOf, rowsOf rows with
+    | some id, some fs, some rs =>
+      some (match avroRows fs rs with
+        | .ok encs =>
+          let prefix_ := ArrowModel.Generated.C17.CONFLUENT_MAGIC.map Int.toNat ++ (leBytes 4 id).reverse
+          toHex (encs.map (fun e => prefix_ ++ e)).flatten
         | .error e => e)
     | _, _, _ => some "bad-op"
   | ["ocf", sch, batches] =>
@@ -283,6 +302,7 @@ def handleAvro (toks : List String) : Option String :=
 
   C17 csv <delim> <records>       records `rec|rec|…`, rec = comma-separated hex fields (`-` = empty field)
                                   → hex of the written lines (model writer; model reader must split them back)
+  C17 csvq <delim> <quote> <records>   the same with an explicit quote byte
   C17 csvsplit <delim> <k> <hex>  arbitrary input bytes → the records the reader model splits them into
   C17 jsonstr <hex>               UTF-8 string → hex of the quoted, escaped JSON token
   C17 jsonunesc <hex>             a JSON string token → hex of the decoded string, or ERR:parse
@@ -311,6 +331,15 @@ def Text.handleText (toks : List String) : Option String :=
         some s!"MODEL-SPEC-MISMATCH csv split={showRecords (Csv.readRecords d q out)}"
       else some (toHex out)
     | _, _ => some "bad-op"
+  | ["csvq", d, q, recs] =>
+    -- as `csv`, with an explicit quote byte (the round-trip theorem holds for every legal (delimiter, quote) pair)
+    match d.toNat?, q.toNat?, parseRecords recs with
+    | some d, some q, some rs =>
+      if d = q ∨ d = 10 ∨ d = 13 ∨ q = 10 ∨ q = 13 then some "bad-op" else
+      let out := Csv.writeRecords d q rs
+      if Csv.readRecords d q out != rs then some s!"MODEL-SPEC-MISMATCH csvq split={showRecords (Csv.readRecords d q out)}"
+      else some (toHex out)
+    | _, _, _ => some "bad-op"
   | ["csvsplit", d, k, hex] =>
     match d.toNat?, k.toNat?, parseHex hex with
     | some d, some k, some bytes =>
